@@ -16,6 +16,11 @@ def main():
     ap.add_argument("--setup", action="store_true")
     ap.add_argument("--seed", type=int, default=int(os.environ.get("VERIF_SEED", "0")))
     a = ap.parse_args()
+    import faulthandler
+    import signal
+    faulthandler.register(signal.SIGUSR1, all_threads=True)
+    if os.environ.get("VERIF_WATCHDOG"):
+        faulthandler.dump_traceback_later(int(os.environ["VERIF_WATCHDOG"]), exit=True)
     core.ensure_deps()
     table = core.build_ext("dev", quiet=not a.setup)
     if a.setup:
